@@ -200,6 +200,23 @@ def execute(case, stats, log):
         var = ev.get("var")
         if var is not None and ev["ev"] != "build" and var not in m.pool:
             continue
+        if ev["ev"] == "rebuild_fresh":
+            # only ever inserted by the F19 ablation: every live program variable is constructed anew
+            # under the configuration in effect NOW (no singleton of the earlier construction is
+            # reused, so no advertised layout cached under an earlier policy survives), while the
+            # lowering cache and the lowered trees kept alive stay exactly as the history left them
+            from ..common import all_singleton_registries
+
+            for _, reg in all_singleton_registries():
+                reg.clear()
+            live = [v for v in m.pool if m.origin.get(v) == v and v in m.by_out]
+            m.env.vars.clear()
+            m.env.rngs.clear()
+            for v in live:
+                m.pool.pop(v, None)
+            for v in live:
+                m.build(v)
+            continue
         if ev["ev"] == "materialise":
             x = m.pool[var]
             policy = dask.config.get("array.unify-chunks-policy", "auto")
@@ -247,3 +264,40 @@ def candidates(case):
         c = dict(case)
         c["history"] = h
         yield c
+
+
+# --------------------------------------------------------------------------- known finding F19 (same root as in C09)
+
+
+def _pre_f19(case, result):
+    """A unify-chunks policy/limit flip lies between a build and a later materialisation/compute, i.e.
+    some expression is materialised under another configuration than it was constructed under."""
+    seen_build = False
+    flipped_after_build = False
+    for e in case["history"]:
+        if e["ev"] == "build":
+            seen_build = True
+        elif H.is_unify_flip(e) and seen_build:
+            flipped_after_build = True
+        elif e["ev"] in ("materialise", "compute") and flipped_after_build:
+            return True
+    return False
+
+
+def _abl_f19(case):
+    """NOT 'remove the flips' (that would also hide a stale lowering-cache entry, which is what this
+    check exists to find): every materialisation keeps its configuration and its place in the history,
+    but the expression it materialises is constructed afresh under that configuration first.  The
+    lowering cache and everything lowered earlier are left as the history made them, so a layout
+    served from an earlier policy's lowering still fails the ablated run and is reported."""
+    hist = []
+    for e in case["history"]:
+        if e["ev"] in ("materialise", "compute"):
+            hist.append({"ev": "rebuild_fresh"})
+        hist.append(e)
+    return dict(case, history=hist)
+
+
+FINDING_ABLATIONS = {
+    "F19": (_pre_f19, _abl_f19),
+}
